@@ -13,6 +13,7 @@ mod ljscore;
 mod obs;
 mod oracle;
 mod optrace;
+mod output;
 mod states;
 mod suites;
 
@@ -82,6 +83,7 @@ fn cmd_opt(m: &HashMap<String, String>) {
                 "pairs" => suites::prefix_pairs(&mut rng, 16 * scale / chunks.max(1) * 2),
                 "real" => suites::real_suite(&mut rng, 14 * scale / chunks.max(1) * 2, if thorough { 400 } else { 250 }),
                 "edited" => suites::edited_suite(&mut rng, 7 * scale / chunks.max(1) * 2, 100, false),
+                "saveload" => suites::saveload_suite(&mut rng, 14 * scale / chunks.max(1) * 2),
                 "oor" => suites::edited_suite(&mut rng, 7 * scale / chunks.max(1) * 2, 100, true),
                 _ => vec![],
             };
@@ -117,6 +119,12 @@ fn main() {
         "lj" => ljcheck::lj(m.get("in").expect("--in"), m.get("out").expect("--out")),
         "probe" => ljscore::probe_replay(m.get("in").expect("--in"), m.get("out").expect("--out")),
         "ljsum" => ljscore::ljsum(
+            m.get("out").expect("--out"),
+            m.get("tier").map(|t| t == "thorough").unwrap_or(false),
+            m.get("seed").and_then(|s| s.parse().ok()).unwrap_or(1),
+        ),
+        "svg" => output::svg(m.get("in").expect("--in"), m.get("out").expect("--out")),
+        "json-random" => output::json_random(
             m.get("out").expect("--out"),
             m.get("tier").map(|t| t == "thorough").unwrap_or(false),
             m.get("seed").and_then(|s| s.parse().ok()).unwrap_or(1),
